@@ -23,7 +23,7 @@ PROPERTY = 'C04'
 ALPHABET = [k for k in tw.KINDS if k not in ('usuccess', 'kbint')]
 REDUCED = ['pass', 'fail', 'error', 'sysexit', 'skip_body', 'xfail', 'sub2',
            'err_err_td', 'err_cleanup', 'err_setup']
-LAYER_EXCS = ['ValueError', 'WorldError', 'EvilStr', 'Unicode', 'Chained', 'KeyError']
+LAYER_EXCS = ['ValueError', 'WorldError', 'EvilStr', 'Unicode', 'Chained', 'KeyError', 'Unhashable']
 F1_KEY = 'buffer:second-result-event:AttributeError-aborts-run'
 
 
